@@ -36,7 +36,7 @@ def regen_tables():
                        capture_output=True, text=True, timeout=120)
     if p.returncode != 0:
         return False, (p.stdout + p.stderr)[-2000:]
-    return True, p.stdout.strip().splitlines()[-1] if p.stdout.strip() else ""
+    return True, "; ".join(l for l in p.stdout.strip().splitlines() if not l.startswith(" "))[-1500:]
 
 
 def make(target, timeout=1500):
